@@ -64,6 +64,7 @@ class Measles(SIR):
 
         self.susceptible[uids] = False
         self.exposed[uids] = True
+        self.infected[uids] = False # Exposed agents are not yet infected (the flag is set by SIR.set_prognoses above)
         self.ti_exposed[uids] = ti
 
         p = self.pars
